@@ -128,10 +128,14 @@ def selectDescs (parseHash : Bytes → Option Bytes) (sels : List Sel) :
         | .error e => .error e
         | .ok r => .ok (if m then d :: r else r)
 
+/-- `FileImage.isEmpty`: no descriptor of the table is in use (the table is authoritative; the
+    header's free count can be stale after an interrupted modification) -/
+def Img.isEmpty (s : Img) : Bool := !s.rds.any (·.used)
+
 /-- `GetDescriptors` -/
 def getDescriptors (parseHash : Bytes → Option Bytes) (s : Img) (sels : List Sel) :
     Except Err (List RawDesc) :=
-  if s.h.dfree == s.h.dtotal then .error .noObjects else selectDescs parseHash sels s.rds
+  if s.isEmpty then .error .noObjects else selectDescs parseHash sels s.rds
 
 /-- `getDescriptor`: index of the unique in-use match.  The Go loop returns
     `ErrMultipleObjectsFound` as soon as a second match is seen, i.e. before a selector error that
@@ -158,7 +162,7 @@ def getDescriptorIdx (parseHash : Bytes → Option Bytes) (rds : List RawDesc) (
 /-- `GetDescriptor` -/
 def getDescriptor (parseHash : Bytes → Option Bytes) (s : Img) (sels : List Sel) :
     Except Err RawDesc :=
-  if s.h.dfree == s.h.dtotal then .error .noObjects
+  if s.isEmpty then .error .noObjects
   else match getDescriptorIdx parseHash s.rds sels with
     | .error e => .error e
     | .ok i => .ok (s.rds.getD i zeroDesc)
